@@ -3,7 +3,7 @@
    no Extract Constant of ours; N / positive / byte / string stay Coq inductives. *)
 Require Extraction.
 Require Import ExtrOcamlBasic.
-From Jamm Require Import Bytes Fnv Consts CLayout Meta Spec Codec Tree CheckM Cursor PL Freelist Conc ApiSig ApiFlow Engine EngineAbs SpecPath EngineRefines EngineR.
+From Jamm Require Import Bytes Fnv Consts CLayout Meta Spec Codec Tree CheckM Cursor PL Freelist Conc ApiSig ApiFlow Engine EngineAbs SpecPath EngineRefines EngineR EngineScan.
 Extraction Language OCaml.
 Set Extraction KeepSingleton.
 Separate Extraction
@@ -23,4 +23,7 @@ Separate Extraction
   EngineAbs.abs_db EngineAbs.sem_tx Spec.strip
   SpecPath.path_step SpecPath.pinit SpecPath.expand
   EngineRefines.checkedb EngineRefines.readableb EngineRefines.db_alloc_okb
-  EngineR.run_tx_r.
+  EngineR.run_tx_r
+  Engine.root_bucket Engine.begin_w EngineScan.txm_step EngineScan.tx_state
+  EngineScan.ovl_get EngineScan.ovl_cget EngineScan.ovl_scan EngineScan.ovl_seek EngineScan.ovl_range
+  EngineScan.tx_get EngineScan.tx_scan EngineScan.tx_seek EngineScan.tx_range.
